@@ -633,3 +633,88 @@ func TestC16StaleOpen(t *testing.T) {
 		time.Sleep(time.Minute)
 	})
 }
+
+// cleanupInHookActions is a graphsync hook-actions double whose MaxLinks call - made by the transport
+// from inside its incoming-request hook - gives another goroutine the time to run CleanupChannel for the
+// same channel to completion.
+type cleanupInHookActions struct {
+	testharness.FakeIncomingRequestHookActions
+	during func()
+}
+
+func (a *cleanupInHookActions) MaxLinks(n uint64) {
+	if a.during != nil {
+		a.during()
+	}
+	a.FakeIncomingRequestHookActions.MaxLinks(n)
+}
+
+// TestC16CleanupInHook: CleanupChannel runs to completion on another goroutine while the transport's
+// incoming-request hook for the same channel (a restart request) is in progress. After both have
+// returned, the channel is cleaned up: every callback of either graphsync request must produce no
+// channel event, and nothing of the channel may be left in the transport's tables.
+func TestC16CleanupInHook(t *testing.T) {
+	vf.Run(t, "C16CleanupInHook", vf.Opts{Bubble: true, DefaultN: 16}, func(c *vf.Case) {
+		r := c.Rng
+		peers := gen.Peers(r, 2)
+		self, other := peers[0], peers[1]
+		f := newTrFix(c, self)
+		v := gen.SimpleVoucher("VT0", "v")
+		tid := datatransfer.TransferID(1 + r.Intn(1<<20))
+		chid := datatransfer.ChannelID{Initiator: other, Responder: self, ID: tid}
+		req, _ := message.NewRequest(tid, false, true, &v, dummyCid, gen.AllSelector)
+		id1 := graphsync.NewRequestID()
+		f.gs.IncomingRequestHook(other, doubles.Req(id1, dtExt(req)), &testharness.FakeIncomingRequestHookActions{})
+		if r.Intn(2) == 0 {
+			f.gs.IncomingRequestProcessingListener(other, doubles.Req(id1, nil), 1)
+			f.gs.OutgoingBlockHook(other, doubles.Req(id1, nil), doubles.Block(100, 1, true), &testharness.FakeOutgoingBlockHookActions{})
+		}
+		settle()
+		restart, _ := message.NewRequest(tid, true, true, &v, dummyCid, gen.AllSelector)
+		id2 := graphsync.NewRequestID()
+		acts := &cleanupInHookActions{}
+		acts.during = func() {
+			done := make(chan struct{})
+			go func() { defer close(done); f.tr.CleanupChannel(chid) }()
+			<-done
+			c.Count("cleanup_completed_inside_hook", 1)
+		}
+		f.gs.IncomingRequestHook(other, doubles.Req(id2, dtExt(restart)), acts)
+		settle()
+		nev := f.ev.Len()
+		// every callback graphsync can still make for the two requests
+		for _, id := range []graphsync.RequestID{id1, id2} {
+			rq := doubles.Req(id, nil)
+			f.gs.IncomingRequestProcessingListener(other, rq, 1)
+			f.gs.OutgoingBlockHook(other, rq, doubles.Block(200, 2, true), &testharness.FakeOutgoingBlockHookActions{})
+			f.gs.BlockSentListener(other, rq, doubles.Block(200, 2, true))
+			f.gs.RequestUpdatedHook(other, rq, doubles.Req(id, dtExt(message.UpdateRequest(tid, false))), &testharness.FakeRequestUpdatedActions{})
+			f.gs.NetworkErrorListener(other, rq, errors.New("network error"))
+			f.gs.CompletedResponseListener(other, rq, graphsync.RequestCompletedFull)
+			f.gs.RequestorCancelledListener(other, rq)
+		}
+		settle()
+		for _, h := range f.ev.Calls()[nev:] {
+			c.Violation("C16", "event-after-cleanup "+h.Op, "callback for a graphsync request of a cleaned-up channel produced the channel event %s", h.Op)
+		}
+		if snap, ok := hookTransport(f.tr); ok {
+			for _, tc := range snap.tracked {
+				if tc == chid {
+					c.Violation("C16", "tracked-after-cleanup", "channel still tracked after CleanupChannel ran inside the hook")
+				}
+			}
+			for rid, rc := range snap.routes {
+				if rc == chid {
+					c.Violation("C16", "route-after-cleanup", "request %v still routed to the channel after CleanupChannel ran inside its hook", rid)
+				}
+			}
+		}
+		c.Mark("idx=%d", c.Index%2)
+		c.NonTrivial()
+		if c.Index < 1 {
+			c.Sample(map[string]any{"engine": "cleanup inside the incoming-request hook", "events_after_cleanup": f.ev.Len() - nev})
+		}
+		f.tr.Shutdown(bg)
+		time.Sleep(time.Minute)
+	})
+}
